@@ -359,7 +359,12 @@ func (b *gBuilder) spell(i int) string {
 
 func (b *gBuilder) penAddr(s string) string {
 	a := maddr(s)
-	if b.r.Intn(3) != 0 {
+	switch b.r.Intn(6) {
+	case 0:
+	case 1:
+		// relayed peer: the multiaddr of the connection starts with the RELAY's IP; the gater keys the penalty by it
+		a += "/p2p/" + fixedPeerID + "/p2p-circuit/p2p/" + fixedPeerID
+	default:
 		a += "/p2p/" + fixedPeerID
 	}
 	return a
